@@ -81,11 +81,6 @@ GOAL_FIN = "FINAL VALUE OF OBJECTIVE FUNCTION"
 
 
 # ============================================================================= small helpers
-def fl(s):
-    """value of a printed field"""
-    return float(s)
-
-
 def p6(x):
     return float("%.5E" % x)
 
@@ -239,7 +234,6 @@ def ext_table_case(desc):
         return v
 
     rows = []
-    exp_rows = []
     obase = desc.get("obj", 0)
     for k, it in enumerate(desc["iters"]):
         vals = [nxt() for _ in labels]
@@ -324,7 +318,6 @@ def check_ext_table(desc, tmp):
                     fails.append(("ext:cell", f"row ITERATION={it} column {c}: read {g[c]!r}, written {w[c]!r}"))
                     return fails, ncmp
         byit = {it: (vals, obj) for it, vals, obj in rows}
-        est_labels = [plabel(x) for x in order_tos(labels)]
 
         def rowdict(code, only=None):
             vals, _ = byit[code]
@@ -369,7 +362,6 @@ def check_ext_table(desc, tmp):
             want = p6(byit[R.SPECIAL["cond"]][0][0])
             if not feq(t.condition_number, want):
                 fails.append(("ext:condition_number", f"condition number {t.condition_number!r} written {want!r}"))
-        del est_labels
     except Exception as e:  # the reader must not fail on a well formed file
         cls, txt = crash_info(e)
         fails.append((cls, "ext table: " + txt))
@@ -434,8 +426,6 @@ def phi_case(desc):
             etc.append(ALPHA[c[pos % len(c)]] if desc.get("stress") else 0.001 * (pos + 1) * (-1) ** pos)
             pos += 1
         inds.append((k + 1, idv, eta, etc, OBJS[(k + desc.get("obj", 0)) % len(OBJS)]))
-    if all(all(v == 0 for v in i[2]) and all(v == 0 for v in i[3]) and i[4] == 0 for i in inds):
-        pass
     return inds
 
 
